@@ -96,6 +96,12 @@ func (k *chk) near(got float64, v int64, den int64, tol *big.Rat) (ok, exact boo
 	d := new(big.Rat).SetFloat64(got)
 	d.Sub(d, big.NewRat(v, den))
 	d.Abs(d)
+	if tol.Sign() > 0 {
+		r, _ := new(big.Rat).Quo(d, tol).Float64()
+		if old, _ := k.sum.Extra["max_dev_over_tol"].(float64); r > old && r <= 1 {
+			k.sum.Extra["max_dev_over_tol"] = r
+		}
+	}
 	return d.Cmp(tol) <= 0, false
 }
 
